@@ -20,6 +20,8 @@
 (*             intervals: the extension of an empty bi-interval is the empty   *)
 (*             bi-interval of the extended string -- the property fixes its    *)
 (*             size (0), not its bounds.                                       *)
+(*   clone     {from}  -> ok            the index was clone()d / clone_from()-ed *)
+(*             into a used index of other sequences; copy and original go on   *)
 (*   serde     {}      -> ok            owned index round-tripped through serde;*)
 (*             the events after it are judged like the ones before            *)
 (*   bsearch   {p, it} -> kind, lower, upper, len, pos   backward_search of    *)
@@ -67,7 +69,7 @@ Explains(cfg, e) ==
               LET p == c.a.p  l == c.a.l IN
               /\ Len(p) >= 1 /\ DnaWord(p) /\ l >= 1 /\ (cfg.tab # 0 => UpperWord(p))
               /\ AllSmemsOKin(MemSet(p, t), p, l, r.ms, t)
-         [] c.op = "serde" -> TRUE     \* the (owned) index went through Serialize/Deserialize
+         [] c.op \in {"serde", "clone"} -> TRUE     \* the (owned) index went through Serialize/Deserialize
          [] c.op = "bsearch" ->        \* FMIndexable::backward_search of the FMD index (C05 semantics)
               LET p == c.a.p IN
               /\ Len(p) >= 1 /\ DnaWord(p)
